@@ -228,6 +228,14 @@ func runProperty(prop, tier string, workers int) int {
 			specs = append(specs, s)
 		}
 	}
+	// lemmas that license engine summaries run with every property that executes the builder
+	if len(specs) > 0 && prop != "C15" && prop != "C16" && !strings.HasPrefix(prop, "DBG") {
+		for _, s := range allSpecs() {
+			if s.Property == "*" {
+				specs = append(specs, s)
+			}
+		}
+	}
 	if len(specs) == 0 {
 		fmt.Fprintf(os.Stderr, "no harness registered for property %s\n", prop)
 		return 2
